@@ -169,6 +169,9 @@ def sdf_write_read(mol_specs, nl, route, ext, d):
         atoms, gb = spec[0], spec[1]
         try:
             m, nb = build(atoms, nl, gb, spec[2] if len(spec) > 2 else "")
+            if (len(atoms) + j) % 3 == 0:
+                # the molecule carries a title: empty, blank, or text
+                m.properties["name"] = ("", "   ", "water 1", "x")[(len(atoms) + 2 * j) % 4]
             if route == "string":
                 texts.append(m.to_sdf_string().encode("latin-1", "replace"))
             else:
@@ -270,15 +273,17 @@ def drive_sdf_read(r, d):
     from chmpy import Molecule
     from chmpy.fmt.sdf import parse_sdf_contents
     text = propose_sdf_file(r["names"], r["mols"], r["style"])
+    lim = int(r.get("limit", 0))
+    kwl = {"limit": lim} if lim else {}
     if r["route"] == "string":
-        back = read_back(lambda: [Molecule.from_sdf_dict(x) for x in parse_sdf_contents(text)], 1)
+        back = read_back(lambda: [Molecule.from_sdf_dict(x) for x in parse_sdf_contents(text, **kwl)], 1)
     else:
         p = os.path.join(d, "spec" + r["ext"])
         with open(p, "wb") as fh:
             # the same lines with the line terminator of another platform for every second file
             fh.write((text.replace("\n", "\r\n") if r.get("crlf") else text).encode("latin-1"))
-        back = read_back(lambda: Molecule.load(p), 1)
-    return {"k": "sdf_read", "names": [list(n.encode("latin-1")) for n in r["names"]],
+        back = read_back(lambda: Molecule.load(p, **kwl), 1)
+    return {"k": "sdf_read", "limit": lim, "names": [list(n.encode("latin-1")) for n in r["names"]],
             "mols": [{"atoms": atoms_in(m["atoms"], 1), "bonds": [list(b) for b in m["bonds"]]} for m in r["mols"]],
             "style": r["style"], "lines": lines_of(text), "back": back,
             "meta": {"recipe": r, "source": "spec-writer",
@@ -532,7 +537,8 @@ def make_recipes(ctx):
             names.append(rng.choice(["mol", "water 1", "", "C6H6", "name-%d" % j]))
         route = rng.choice(["string", "file"])
         recipes.append({"k": "sdf_read", "names": names, "mols": mols, "style": style, "route": route,
-                        "ext": rng.choice([".sdf", ".SDF"]), "crlf": route == "file" and i % 2 == 1})
+                        "ext": rng.choice([".sdf", ".SDF"]), "crlf": route == "file" and i % 2 == 1,
+                        "limit": rng.randint(1, nrec + 1) if (style["term"] and i % 3 == 0) else 0})
     # ---- the repository's own SDF file
     for route in ("string", "file"):
         for gb in (False, True):
